@@ -41,8 +41,13 @@ type GenOpts struct {
 	OddMethods bool     // now and then a method outside the usual six (extension methods, OPTIONS)
 	Twins      bool     // now and then a second route with the same method and path but other Consumes/Produces
 	MinSvcs    int
-	MediaMax   int // longest Consumes / Produces list (0: 2); beyond 4 the pool is extended by MoreMedias
-	CondMax    int // most If-conditions per route (0: 2)
+	MinPathLen int // shortest route path (segments)
+	// LitSkew: pooled paths use one-character literals and mostly literals; their mirror images get few long literals whose
+	// characters add up to the pooled path's literal characters -1, +0 or +1 (near ties of "number of literal characters"
+	// between templates whose numbers of literal segments and of variables differ a lot)
+	LitSkew  bool
+	MediaMax int // longest Consumes / Produces list (0: 2); beyond 4 the pool is extended by MoreMedias
+	CondMax  int // most If-conditions per route (0: 2)
 }
 
 // MoreMedias extends the media pool for long Consumes / Produces lists.
@@ -50,12 +55,17 @@ var MoreMedias = []string{"application/x-t0", "application/x-t1", "application/x
 	"application/x-t8", "application/x-t9", "application/x-t10", "application/x-t11", "application/x-t12", "application/x-t13", "application/x-t14", "application/x-t15"}
 
 // Scale turns generator options into one of the "large" table shapes (counts beyond what small tables reach):
-// 0 long templates (up to 18 segments, many variables), 1 many WebServices (33-40), 2 long Consumes / Produces
+// 0 long templates (10-18, 10-40 or 10-70 route segments, many variables), 1 many WebServices (33-40), 2 long Consumes / Produces
 // lists (up to 12 entries), 3 many If-conditions per route (up to 10), 4 many routes in one service (up to 130).
 func Scale(o *GenOpts, variant int) string {
 	switch variant % 5 {
 	case 0:
-		o.MaxPathLen, o.MaxRootLen = 14, 4
+		// route paths of 10-18, 10-40 or 10-70 segments (beyond 16, 32 and 64), many of them variables
+		o.MinPathLen, o.MaxPathLen, o.MaxRootLen = 10, []int{18, 40, 70}[(variant/5)%3], 4
+		o.LitSkew = (variant/5)%2 == 1
+		if o.LitSkew {
+			return "long-templates-literal-skew"
+		}
 		return "long-templates"
 	case 1:
 		o.MaxSvcs, o.MinSvcs, o.MaxRoutes, o.MaxRootLen = 40, 33, 3, 3
@@ -106,6 +116,9 @@ func (g *genState) seg(root bool, last bool) Seg {
 	default:
 		s = Seg{Kind: Var, Name: g.name()}
 	}
+	if (s.Kind == VarRe || (s.Kind == VarPre && s.PreRe)) && r.Chance(1, 3) {
+		s.ReVar = 1 + r.Intn(400) // the same constraint in one of 400 other spellings
+	}
 	if root && !g.o.VarRoots {
 		s = Seg{Kind: Lit, Lit: r.Pick(Literals)}
 	}
@@ -113,6 +126,13 @@ func (g *genState) seg(root bool, last bool) Seg {
 		s.Verb = r.Pick(Verbs)
 	}
 	return s
+}
+
+func (g *genState) pathLen() int {
+	if g.o.MinPathLen > 0 && g.o.MaxPathLen >= g.o.MinPathLen {
+		return g.r.Range(g.o.MinPathLen, g.o.MaxPathLen)
+	}
+	return g.r.Intn(g.o.MaxPathLen + 1)
 }
 
 func (g *genState) tmpl(n int, root bool) Tmpl {
@@ -197,18 +217,62 @@ func GenTable(r *core.Rand, o GenOpts) *Table {
 		pool := make([]Tmpl, 0, 3)
 		for k := 0; k < r.Range(1, 3); k++ {
 			g.vars = i*100 + 10 + k*10
-			pool = append(pool, g.tmpl(r.Intn(o.MaxPathLen+1), false))
+			pool = append(pool, g.tmpl(g.pathLen(), false))
 		}
+		if o.LitSkew {
+			// pool[0]: short literals nearly everywhere, a few plain variables
+			for k := range pool[0] {
+				if r.Chance(1, 8) {
+					pool[0][k] = Seg{Kind: Var, Name: fmt.Sprintf("s%d_%d", i, k)}
+				} else {
+					pool[0][k] = Seg{Kind: Lit, Lit: r.Pick([]string{"a", "b", "c", "A"})}
+				}
+			}
+		}
+		poolMethod := ""
 		seen := map[string]bool{}
 		for j := 0; j < nr; j++ {
 			var p Tmpl
+			mirror := false
 			if r.Chance(1, 2) {
 				p = pool[r.Intn(len(pool))]
 			} else {
 				g.vars = i*100 + 50 + j*5
-				p = g.tmpl(r.Intn(o.MaxPathLen+1), false)
+				p = g.tmpl(g.pathLen(), false)
 				// specialise / generalise a pooled path: same shape, one segment changed
-				if len(pool[0]) > 0 && r.Chance(1, 2) {
+				if len(pool[0]) > 1 && (r.Chance(1, 8) || (o.LitSkew && r.Chance(1, 2))) {
+					// the mirror image of a pooled path: a variable wherever it has a literal, a literal wherever it has a
+					// variable (the two cross in every position; with long templates one has many more variables than the other)
+					p = make(Tmpl, len(pool[0]))
+					g.vars = i*100 + 90 + j
+					nlit, chars := 0, 0
+					for k, sg := range pool[0] {
+						if sg.Kind == Lit {
+							p[k] = Seg{Kind: Var, Name: g.name()}
+							chars += len(sg.Lit)
+						} else {
+							p[k] = Seg{Kind: Lit, Lit: r.Pick(Literals)}
+							nlit++
+						}
+					}
+					if want := chars + r.Intn(3) - 1; o.LitSkew && nlit > 0 && want >= nlit {
+						// spread "want" literal characters over the mirror's literals
+						left, todo := want, nlit
+						for k := range p {
+							if p[k].Kind != Lit {
+								continue
+							}
+							n := left / todo
+							if todo == 1 {
+								n = left
+							}
+							p[k].Lit = strings.Repeat("m", n)
+							left -= n
+							todo--
+						}
+					}
+					mirror = true
+				} else if len(pool[0]) > 0 && r.Chance(1, 2) {
 					p = append(Tmpl{}, pool[0]...)
 					k := r.Intn(len(p))
 					g.vars = i*100 + 80 + j
@@ -226,6 +290,11 @@ func GenTable(r *core.Rand, o GenOpts) *Table {
 			rs := RouteSpec{ID: rid, Method: r.Pick(mpool), Path: p}
 			if o.OddMethods && r.Chance(1, 7) {
 				rs.Method = r.Pick([]string{"LOCK", "UNLOCK", "FIND", "PROPFIND", "OPTIONS", "GE"})
+			}
+			if mirror && poolMethod != "" {
+				rs.Method = poolMethod // the mirror image competes with a route on the pooled path
+			} else if len(pool[0]) > 0 && p.String() == pool[0].String() {
+				poolMethod = rs.Method
 			}
 			key := rs.Method + " " + shapeKey(p)
 			if o.Distinct && seen[key] {
@@ -341,6 +410,9 @@ func instantiate(r *core.Rand, full Tmpl) []string {
 			}
 		case Wild:
 			n := r.Range(1, 3)
+			if r.Chance(1, 25) {
+				n = []int{14, 30, 62, 64, 130}[r.Intn(5)] // deep paths below the tail wildcard (totals around 16, 32, 64 and beyond)
+			}
 			for i := 0; i < n; i++ {
 				toks = append(toks, r.Pick(VarVals))
 			}
@@ -389,6 +461,47 @@ func mediaHeader(r *core.Rand, want string, accept bool) string {
 		return r.Pick(Medias) + ";q=0, " + want // q is a matter for the entity writer: the router only asks whether some member is producible
 	}
 	return want + "," + want
+}
+
+// jointTokens rewrites the tokens of a hit on route a so that another route b of the same service, method and length
+// matches as well: where a has a variable and b a literal, the token becomes b's literal. nil when no such URL exists.
+func jointTokens(r *core.Rand, s *SvcSpec, a *RouteSpec, toks []string) []string {
+	fa := Full(s, a)
+	if len(fa) == 0 || len(toks) != len(fa) {
+		return nil
+	}
+	var cands []*RouteSpec
+	for i := range s.Routes {
+		b := &s.Routes[i]
+		if b.ID != a.ID && b.Method == a.Method && len(b.Path) == len(a.Path) {
+			cands = append(cands, b)
+		}
+	}
+	if len(cands) == 0 {
+		return nil
+	}
+	fb := Full(s, cands[r.Intn(len(cands))])
+	out := append([]string{}, toks...)
+	changed := false
+	for i := range fa {
+		if fa[i].Kind != Lit && fb[i].Kind == Lit {
+			out[i] = fb[i].Lit
+			if fb[i].Verb != "" {
+				out[i] += ":" + fb[i].Verb
+			}
+			changed = true
+		}
+	}
+	if !changed {
+		return nil
+	}
+	if t, _ := MatchFull(fa, out); t != Yes {
+		return nil
+	}
+	if t, _ := MatchFull(fb, out); t != Yes {
+		return nil
+	}
+	return out
 }
 
 // GenReq draws one request for a table.
@@ -478,6 +591,13 @@ func GenReq(r *core.Rand, t *Table, router string) Req {
 		}
 		if req.HasAcc {
 			req.More["Accept"] = []string{r.Pick(append([]string{"*/*", "image/png"}, Medias...))}
+		}
+	}
+	if mode < 55 && len(s.Routes) > 1 && r.Chance(1, 6) {
+		// a URL that a second route of the same method matches as well (its literals stand where this route has variables)
+		if jt := jointTokens(r, s, rt, toks); jt != nil {
+			toks = jt
+			req.Class = "joint"
 		}
 	}
 	if mode >= 55 {
